@@ -280,3 +280,14 @@ Definition bw_string (q : bwq) : bytes := bw_s q.
 (* util.EmptyOr *)
 Definition empty_or_bytes (v fallback : bytes) : bytes := match v with [] => fallback | _ => v end.
 Definition empty_or_Z (v fallback : Z) : Z := if v =? 0 then fallback else v.
+
+(* boolean equalities used by the generated per-record equality (gen/GenCfgMsg.v) *)
+Fixpoint lit_list_eqb {A} (e : A -> A -> bool) (a b : list A) : bool :=
+  match a, b with
+  | [], [] => true
+  | x :: a', y :: b' => e x y && lit_list_eqb e a' b'
+  | _, _ => false
+  end.
+Definition lit_pair_eqb (a b : bytes * bytes) : bool :=
+  bytes_eqb (fst a) (fst b) && bytes_eqb (snd a) (snd b).
+Definition bwq_eqb (a b : bwq) : bool := bytes_eqb (bw_s a) (bw_s b) && (bw_i a =? bw_i b).
